@@ -15,7 +15,8 @@ ID = "C05"
 LEVEL = "exploration"
 RULE = ("random mapped models x random object graphs (as C04, without nan/inf) persisted into a fresh in-memory SQLite "
         "database created by krrood's create_engine and reloaded in a second Session via each DAO class of the root's "
-        "chain; plus the hand-written model.  Non-trivial = the graph has an aliased node; distinct = (objects, shared "
+        "chain; every third graph also starts a stream of five graphs converted with one shared ToDAOState, stored in one "
+        "session and dropped right after their conversion (row counts per table = distinct objects); plus the hand-written model.  Non-trivial = the graph has an aliased node; distinct = (objects, shared "
         "nodes, classes) signature")
 ASSUMPTIONS = ["list order and duplicate list entries are not compared (the statement promises 'the same elements')",
                "a restored collection only has to be a list / set equal in content",
@@ -29,7 +30,7 @@ def plan(tier):
     return {"cases": 36 if tier == "quick" else 160, "shards": 16, "case_timeout": 900, "shard_timeout": 6000,
             "dev_shard": False, "min_nontrivial": 15,
             "min_counters": {"graphs": 500, "insert_events": 2000, "row_counts_checked": 1500, "reloads": 600,
-                             "c05_objects_compared": 3000}}
+                             "c05_objects_compared": 3000, "c05_stream_graphs": 400}}
 
 
 setup = c04.setup
